@@ -195,6 +195,9 @@ def load(inf, lazy=False):
                     dummy_channel = yaml.safe_load(meta['_dummy_channel'])
                     dummy_channel = im.illumination[dummy_channel]
                     im = im.drop(dummy_channel.item(), illumination)
+                if '_illumination' in meta and illumination in im.dims:
+                    # load_image names the channels red, green, blue
+                    im[illumination] = yaml.safe_load(meta['_illumination'])
                 if '_image_scaling' in meta:
                     smin, smax = yaml.safe_load(meta['_image_scaling'])
                     if im.max() > im.min():
@@ -413,6 +416,12 @@ def _save_im(filename, im, depth=8):
         if im.name == None:
             im.name = os.path.splitext(os.path.split(filename)[-1])[0]
         metadat = pack_attrs(im, do_spacing=True)
+        if illumination in im.dims:
+            # labels of the channels, which hp.load cannot get from the pixels
+            labels = im[illumination].values.tolist()
+            if '_dummy_channel' in im.attrs:
+                del labels[im.attrs['_dummy_channel']]
+            metadat['_illumination'] = yaml.dump(labels)
         # import ifd2 - hidden here since it doesn't play nice in some cases.
         from PIL.TiffImagePlugin import ImageFileDirectory_v2 as ifd2
         tiffinfo = ifd2()
